@@ -566,3 +566,52 @@ func H02Label() {
 		vndAssert(!ok, "deleted-key-absent")
 	}
 }
+
+// h02Failing yields some data and then an I/O error.
+type h02Failing struct {
+	data []byte
+	done bool
+}
+
+func (f *h02Failing) Read(p []byte) (int, error) {
+	if f.done {
+		return 0, io.ErrUnexpectedEOF
+	}
+	f.done = true
+	return copy(p, f.data), nil
+}
+
+// H02Reset: a reader whose first input ended in an I/O error is reset onto a second input:
+// the second input's records are what the format prescribes, with their own line numbers,
+// configuration and no error left over from the first.
+func H02Reset() {
+	v := vndByte("val")
+	vndAssume(vndAnd(v >= 'a', v <= 'z'))
+	first := []byte("a: 1\nBenchmarkF 1 1 ns\nBenchmarkTrunc")
+	second := append([]byte("b: "), v, '\n')
+	second = append(second, "BenchmarkS 2 3 u\n"...)
+	var r Reader
+	r.Reset(&h02Failing{data: first}, "one")
+	n1 := 0
+	for r.Scan() {
+		n1++
+	}
+	vndAssert(r.Err() != nil, "io-error-is-reported")
+	r.Reset(bytes.NewReader(second), "two")
+	var got []*Result
+	for r.Scan() {
+		if res, ok := r.Result().(*Result); ok {
+			got = append(got, res.Clone())
+		}
+	}
+	vndReach("h02:reset")
+	vndAssert(r.Err() == nil, "no-error-left-over-from-the-previous-input")
+	vndAssert(len(got) == 1, "one-result-per-benchmark-line")
+	if len(got) != 1 {
+		return
+	}
+	f, line := got[0].Pos()
+	vndAssert(f == "two" && line == 2, "result-line-number")
+	vndAssert(string(got[0].Name) == "S" && got[0].Iters == 2, "result-name")
+	vndAssert(got[0].GetConfig("b") == string([]byte{v}) && got[0].GetConfig("a") == "", "file-configuration-does-not-leak-into-the-next-input")
+}
